@@ -22,7 +22,8 @@ Definition close_active_fsync_fails (s : storage) : storage := s.
 
 Definition rotation_create_fails (s : storage) : storage :=
   {| s_active := s_active s; s_closed := s_closed s; s_next := s_next s + 1; s_corrupted := s_corrupted s; s_alive := s_alive s;
-     s_dump_req := s_dump_req s; s_aged := s_aged s; s_open := s_open s; s_f2 := s_f2 s |}.
+     s_dump_req := s_dump_req s; s_aged := s_aged s; s_open := s_open s; s_f2 := s_f2 s;
+     s_bad := s_bad s; s_quar := s_quar s |}.
 
 (* ================= one failed file operation inside a CLIENT call (C11, second part) =================
 
